@@ -124,3 +124,13 @@ func specByeSize(n, reasonLen int) int {
 // ---- RFC 3550 section 6.7: APP ----
 
 func specAppSize(dataLen int) int { return 12 + dataLen + specPad4(dataLen) }
+
+// ---- RFC 4585 section 6.3.2: SLI entry  First(13) | Number(13) | PictureID(6) ----
+
+func specSLIWord(e SLIEntry) uint32 {
+	return uint32(e.First&0x1FFF)<<19 | uint32(e.Number&0x1FFF)<<6 | uint32(e.Picture&0x3F)
+}
+
+func specSLIDecode(w uint32) SLIEntry {
+	return SLIEntry{First: uint16(w >> 19 & 0x1FFF), Number: uint16(w >> 6 & 0x1FFF), Picture: uint8(w & 0x3F)}
+}
